@@ -24,9 +24,10 @@ pub struct Config {
 
 impl Config {
     pub fn from_index(i: u64) -> Config {
-        let profile = PROFILES[(i % 13) as usize];
-        let strat = STRAT_KINDS[((i / 13) % 6) as usize];
-        let c = (i / 78) % 36;
+        let np = PROFILES.len() as u64;
+        let profile = PROFILES[(i % np) as usize];
+        let strat = STRAT_KINDS[((i / np) % 6) as usize];
+        let c = (i / (np * 6)) % 36;
         let fmt = if c % 2 == 0 { Fmt::Compact } else { Fmt::Json };
         let alg = ALL_ALGS[((c / 2) % 3) as usize];
         let decoys = (c / 6) % 2 == 1;
